@@ -27,7 +27,7 @@ RULE = ('Hypothesis call sequences (2-30 calls of parse(src) / eval(src, names_i
         'after a near-duplicate or failing variant; distinct by sequence.')
 ASSUMPTIONS = ['the cache mappings are well-behaved MutableMappings (what they report as contained they return)']
 
-BASE = ['x + 1', 'len(y)', 'y.push(1)\ny', 'z = x\nz', 'undefined_q', '1 +', 'f = v => v + x\nf(2)', 'max(x, 2)', 'len = 3\nlen',
+BASE = ['fz9(1)', 'fz9(x) if x != "str" else 0', 'x + 1', 'len(y)', 'y.push(1)\ny', 'z = x\nz', 'undefined_q', '1 +', 'f = v => v + x\nf(2)', 'max(x, 2)', 'len = 3\nlen',
         'd["k"]', '[x, [x]]', '{"a": y}', 'x / 0', 'for', 'y[5]', 'x if x > 2 else y', 'sorted(y)', 'g(1)', '', '# c', 'x;;y',
         'y | map(v => v * 2) | sum', 'x = x + 1\nx', 'len([1, 2, 3])', 'str(x) + "!"', 'd["n"] = y\nd', 'min(y)', '$', 'del d["k"]\nd',
         'y += [x]\ny', 'h = [1]\nh.push(h)\nlen(h)', '[]', '{}', 'x if False else []', 'get(d, "zz", [])', '[[], {}]', 'q = []\nq',
@@ -94,7 +94,7 @@ def worlds():
     global _worlds
     if _worlds is None:
         from smartquery import SqParser
-        _worlds = {name: SqParser() for name in ('none', 'dict', 'lru2', 'evicting', 'prewarmed', 'warmer')}
+        _worlds = {name: SqParser() for name in ('none', 'dict', 'lru2', 'evicting', 'prewarmed', 'weak', 'warmer')}
     return _worlds
 
 
@@ -160,7 +160,8 @@ def run_sequence(ops, case):
     """-> (failures, info)"""
     W = worlds()
     pool_sources = sorted({op[1] for op in ops})
-    caches = {'none': None, 'dict': {}, 'lru2': LRU(2), 'evicting': Evicting(), 'prewarmed': {}}
+    import weakref
+    caches = {'none': None, 'dict': {}, 'lru2': LRU(2), 'evicting': Evicting(), 'prewarmed': {}, 'weak': weakref.WeakValueDictionary()}
     for src in pool_sources:
         try:
             caches['prewarmed'][src] = W['warmer'].parse(src)
@@ -188,7 +189,13 @@ def run_sequence(ops, case):
                     out = ('value', neutral(out[1]))
             else:
                 nm = names[wname][op[2]]
-                out = outcome_of(lambda: p.eval(src, nm, max_ops_evaluated=op[3]))
+                if len(op) > 4 and op[4]:
+                    from smartquery.ast_ops import LambdaOp, NameOp, BinOp, ValueOp
+                    body = BinOp('+', NameOp('v'), ValueOp(D(op[4])))
+                    out = outcome_of(lambda: p.eval(src, nm, ast_names={'fz9': LambdaOp([NameOp('v')], body)}, max_ops_evaluated=op[3]))
+                    nm.pop('fz9', None)
+                else:
+                    out = outcome_of(lambda: p.eval(src, nm, max_ops_evaluated=op[3]))
                 if caches[wname] is not None:
                     after = cache_snapshot(caches[wname])
                     changed = [k for k in before if k in after and before[k] != after[k]]
@@ -245,7 +252,7 @@ def cases(draw):
         if n(4) == 0:
             ops.append(('parse', src))
         else:
-            ops.append(('eval', src, n(3), pick(BUDGETS)))
+            ops.append(('eval', src, n(3), pick(BUDGETS), pick([0, 0, 0, 7, 8])))
     return {'ops': ops}
 
 
